@@ -263,3 +263,159 @@ Proof.
     destruct (is_prefix k p) eqn:E'; [|by apply (Hw _ _ Hq)].
     apply is_prefix_spec in E'. exfalso. apply E. by etrans.
 Qed.
+
+(* ---- paths in the domain ---------------------------------------------------------------------- *)
+Lemma path_ok_nonempty p : path_ok p = true -> pk p <> [].
+Proof. unfold path_ok. destruct (pk p); done. Qed.
+Lemma path_ok_ends_sep p : path_ok p = true -> ends_sep p = ptr p.
+Proof.
+  unfold path_ok, ends_sep. intros [_ Hn]%andb_true_iff.
+  destruct (last (pk p)) as [name|] eqn:El; [|by rewrite orb_false_r].
+  destruct (last name) as [c|] eqn:Ec; [|by rewrite orb_false_r].
+  rewrite forallb_forall in Hn. apply last_Some_elem_of, elem_of_list_In in El. specialize (Hn _ El).
+  unfold name_ok in Hn. apply andb_true_iff in Hn as [_ Hc]. rewrite forallb_forall in Hc.
+  apply last_Some_elem_of, elem_of_list_In in Ec. specialize (Hc _ Ec).
+  apply negb_true_iff, orb_false_iff in Hc as [[_ Hb]%orb_false_iff _].
+  rewrite Hb. by rewrite orb_false_r.
+Qed.
+Lemma not_prefix_parent (k : key) : k <> [] -> ~ k `prefix_of` parent k.
+Proof.
+  intros Hk Hp. apply prefix_length in Hp. destruct (key_snoc k Hk) as (x & _ & E).
+  rewrite E in Hp at 1. rewrite app_length in Hp. cbn in Hp. lia.
+Qed.
+Lemma not_prefix_snoc (k : key) x : ~ (k ++ [x]) `prefix_of` k.
+Proof. intros Hp%prefix_length. rewrite app_length in Hp. cbn in Hp. lia. Qed.
+
+Lemma stat_file p t b : stat p t = Some (File b) <-> t !! pk p = Some (File b) /\ ptr p = false.
+Proof.
+  unfold stat. destruct (t !! pk p) as [[c|]|]; [destruct (ptr p)|..]; split; try done.
+  - by intros [= ->].
+  - by intros [[= ->] _].
+  - by intros [? _].
+  - by intros [? _].
+Qed.
+Lemma stat_dir p t : stat p t = Some Dir <-> t !! pk p = Some Dir.
+Proof. unfold stat. destruct (t !! pk p) as [[c|]|]; [destruct (ptr p)|..]; split; done. Qed.
+Lemma stat_none p t :
+  stat p t = None <-> t !! pk p = None \/ (exists b, t !! pk p = Some (File b) /\ ptr p = true).
+Proof.
+  unfold stat. destruct (t !! pk p) as [[c|]|]; [destruct (ptr p)|..]; split; try done.
+  - intros _. right. by exists c.
+  - intros [|(b & _ & ?)]; done.
+  - intros [|(b & ? & ?)]; done.
+  - by left.
+Qed.
+
+(* ---- the primitives under the conditions the commands establish ------------------------------- *)
+Lemma dir_create_spec t k :
+  wf t -> f_dir_create k t = match mkdirs k t with Some t1 => (true, t1) | None => (false, t) end.
+Proof.
+  intros Hwf. unfold f_dir_create, p_create_dir_all.
+  destruct (is_dir_at t k) eqn:E; [by rewrite mkdirs_id|done].
+Qed.
+Lemma create_parent_spec t p :
+  wf t ->
+  f_create_parent p t = match mkdirs (parent (pk p)) t with Some t1 => (true, t1) | None => (false, t) end.
+Proof.
+  intros Hwf. unfold f_create_parent. destruct (parent (pk p)) eqn:E; [done|]. by apply dir_create_spec.
+Qed.
+Lemma open_trunc_unfold p b t :
+  pk p <> [] ->
+  p_open_trunc p b t =
+    if ptr p then (false, t)
+    else if is_dir_at t (parent (pk p)) && negb (is_dir_at t (pk p)) then (true, <[pk p := File b]> t)
+    else (false, t).
+Proof. intros H. unfold p_open_trunc. destruct (pk p); done. Qed.
+Lemma put_file_unfold p b t :
+  pk p <> [] ->
+  put_file p b t =
+    if ptr p then None
+    else match mkdirs (parent (pk p)) t with
+         | None => None
+         | Some t1 => if is_dir_at t1 (pk p) then None else Some (<[pk p := File b]> t1)
+         end.
+Proof. intros H. unfold put_file. destruct (pk p); done. Qed.
+Lemma open_trunc_ok p b t :
+  ptr p = false -> pk p <> [] -> is_dir_at t (parent (pk p)) = true -> is_dir_at t (pk p) = false ->
+  p_open_trunc p b t = (true, <[pk p := File b]> t).
+Proof. intros Hp Hk Hd Hn. rewrite open_trunc_unfold by done. by rewrite Hp, Hd, Hn. Qed.
+Lemma open_trunc_ptr p b t : ptr p = true -> p_open_trunc p b t = (false, t).
+Proof. intros Hp. unfold p_open_trunc. by rewrite Hp. Qed.
+Lemma open_trunc_dir p b t : pk p <> [] -> is_dir_at t (pk p) = true -> p_open_trunc p b t = (false, t).
+Proof.
+  intros Hk Hd. rewrite open_trunc_unfold by done. rewrite Hd, andb_false_r. by destruct (ptr p).
+Qed.
+Lemma is_dir_at_insert_ne t (k q : key) n : q <> k -> is_dir_at (<[k := n]> t) q = is_dir_at t q.
+Proof. intros Hq. unfold is_dir_at. destruct q; [done|]. by rewrite lookup_insert_ne. Qed.
+Lemma is_dir_at_insert_file t (k : key) b : k <> [] -> is_dir_at (<[k := File b]> t) k = false.
+Proof. intros Hk. unfold is_dir_at. destruct k; [done|]. by rewrite lookup_insert. Qed.
+Lemma is_dir_at_false_lookup t (k : key) : is_dir_at t k = false -> t !! k <> Some Dir.
+Proof. unfold is_dir_at. destruct k; [done|]. destruct (t !! _) as [[]|]; done. Qed.
+Lemma lookup_not_dir t (k : key) : k <> [] -> t !! k <> Some Dir -> is_dir_at t k = false.
+Proof. intros Hk H. unfold is_dir_at. destruct k; [done|]. destruct (t !! _) as [[]|]; done. Qed.
+
+Lemma p_copy_ok a b c t :
+  t !! pk a = Some (File c) -> ptr a = false -> ptr b = false -> pk b <> [] ->
+  is_dir_at t (parent (pk b)) = true -> is_dir_at t (pk b) = false ->
+  p_copy a b t = (true, <[pk b := File (if decide (pk a = pk b) then [] else c)]> t).
+Proof.
+  intros Hl Hpa Hpb Hkb Hd Hn. unfold p_copy, p_read.
+  rewrite (proj2 (stat_file a t c)) by done. rewrite open_trunc_ok by done.
+  set (t1 := <[pk b := File []]> t).
+  assert (stat a t1 = Some (File (if decide (pk a = pk b) then [] else c))) as ->.
+  { apply stat_file. split; [|done]. unfold t1. destruct (decide (pk a = pk b)) as [->|Hne].
+    - by rewrite lookup_insert.
+    - by rewrite lookup_insert_ne. }
+  rewrite open_trunc_ok; [|done|done|..].
+  - unfold t1. by rewrite insert_insert.
+  - unfold t1. rewrite is_dir_at_insert_ne; [done|by apply parent_ne].
+  - unfold t1. by apply is_dir_at_insert_file.
+Qed.
+Lemma p_copy_fail a b c t :
+  t !! pk a = Some (File c) -> ptr a = false -> pk b <> [] ->
+  ptr b = true \/ is_dir_at t (pk b) = true -> p_copy a b t = (false, t).
+Proof.
+  intros Hl Hpa Hkb H. unfold p_copy, p_read. rewrite (proj2 (stat_file a t c)) by done.
+  destruct H as [H|H]; [by rewrite open_trunc_ptr|by rewrite open_trunc_dir].
+Qed.
+Lemma move_file_ok a b c ow t :
+  t !! pk a = Some (File c) -> ptr a = false -> ptr b = false -> pk b <> [] ->
+  is_dir_at t (parent (pk b)) = true -> is_dir_at t (pk b) = false ->
+  ow = true \/ t !! pk b = None ->
+  x_move_file a b ow t = (true, delete (pk a) (<[pk b := File c]> t)).
+Proof.
+  intros Hl Hpa Hpb Hkb Hd Hn How. unfold x_move_file, x_file_copy, p_exists, p_is_file.
+  rewrite (proj2 (stat_file a t c)) by done. cbn [negb].
+  assert (negb ow && match stat b t with Some _ => true | None => false end = false) as ->.
+  { destruct How as [->|Hb]; [done|]. rewrite (proj2 (stat_none b t)); [by rewrite andb_false_r|by left]. }
+  rewrite (p_copy_ok a b c) by done. unfold p_remove_file.
+  destruct (decide (pk a = pk b)) as [E|Hne].
+  - rewrite (proj2 (stat_file a _ [])); [|split; [rewrite E; by rewrite lookup_insert|done]].
+    rewrite E. by rewrite !delete_insert_delete.
+  - rewrite (proj2 (stat_file a _ c)); [done|]. split; [by rewrite lookup_insert_ne|done].
+Qed.
+
+(* ---- S, unfolded -------------------------------------------------------------------------------- *)
+Lemma put_file_Some p b t t' :
+  put_file p b t = Some t' ->
+  exists t1, mkdirs (parent (pk p)) t = Some t1 /\ ptr p = false /\ pk p <> [] /\
+             is_dir_at t1 (pk p) = false /\ t' = <[pk p := File b]> t1.
+Proof.
+  unfold put_file. destruct (ptr p); [done|]. destruct (pk p) as [|x l] eqn:E; [done|].
+  destruct (mkdirs _ _) as [t1|]; [|done]. destruct (is_dir_at t1 _) eqn:Ed; [done|].
+  intros [= <-]. exists t1. done.
+Qed.
+Lemma S_mv_unfold a b t c :
+  stat a t = Some (File c) ->
+  S_mv a b t = match put_file (mv_target a b t) c t with
+               | Some t1 => (OVal s_true, delete (pk a) t1)
+               | None => (OErr, t)
+               end.
+Proof.
+  intros Es. unfold S_mv, S_cp. rewrite Es. destruct (put_file _ _ _) as [t'|] eqn:Ep; [|done].
+  apply put_file_Some in Ep as (t1 & Hm & Hp & Hk & Hd & ->). apply stat_file in Es as [Hl Hpa].
+  unfold S_rm_one. destruct (decide (pk a = pk (mv_target a b t))) as [E|Hne].
+  - rewrite (proj2 (stat_file a _ c)); [done|]. split; [rewrite E; by rewrite lookup_insert|done].
+  - rewrite (proj2 (stat_file a _ c)); [done|]. split; [|done].
+    rewrite lookup_insert_ne by done. by eapply mkdirs_keeps.
+Qed.
